@@ -58,5 +58,9 @@ for p in props:
     for n in json.load(open(mp)).get("obligations", []):
         if not re.search(r"\b(theorem|lemma)\s+(%s|%s)\b" % (re.escape(n.split(".")[-1]), re.escape(n)), srcs):
             err(p, "obligation not stated:", n)
+import subprocess
+r = subprocess.run([sys.executable, V + "/bin/mkties.py", "--check"], stdout=subprocess.PIPE, stderr=subprocess.STDOUT)
+if r.returncode != 0:
+    err("source ties are not those of /repo HEAD (run bin/mkties.py):", " ".join(r.stdout.decode().split()[-12:]))
 print("lint: %d problem(s)" % bad)
 sys.exit(1 if bad else 0)
